@@ -595,7 +595,8 @@ def rule_a11_parse(ctx):
                         seps.add(c_.value)
     ok = seps >= set('+-.,')
     ctx.ob('A11.parse', f, 'offset split at + or -, fraction split at . or ,', ok, str(sorted(seps)))
-    g = [n for n in walk_own(f.node) if isinstance(n, ast.If) and norm(n.test) == 'len(tz) != 4' and any(isinstance(s, ast.Raise) for s in n.body)]
+    from sa import condeq
+    g = condeq.raising_guards(f.node, 'len(tz) != 4', lambda b: any(isinstance(s, ast.Raise) for s in b), walk_own)
     if len(g) == 1 and any(isinstance(n, ast.If) and norm(n.test) == 'self._shortTZ and len(tz) == 2' for n in walk_own(f.node)):
         ctx.ob('A11.parse', f, 'offset must be hhmm (hh allowed for GeneralizedTime)', True, '')
     else:
